@@ -41,6 +41,25 @@ class LoopSpec:
         self.props = props
 
 
+_QDEPTH = [0]
+
+
+def bound(name):
+    """bound variable for a quantified clause, named by nesting depth only: structurally equal clauses built at
+    different times are then the *same* term (alpha-equivalence by construction)"""
+    return SI(z3.Int("%s!%d" % (name, _QDEPTH[0])))
+
+
+class _Depth:
+    def __enter__(self):
+        _QDEPTH[0] += 1
+        cur().quiet += 1
+
+    def __exit__(self, *a):
+        _QDEPTH[0] -= 1
+        cur().quiet -= 1
+
+
 class C:
     """helper namespace handed to contract code (symbolic mode)"""
     And = staticmethod(sand)
@@ -82,44 +101,100 @@ class C:
         """forall k in [0, n): body(k)"""
         if isinstance(n, int) and n <= 8:
             return sand(*[body(i) for i in range(n)])
-        k = fresh("int", name + "!q")
-        ctx = cur()
-        ctx.quiet += 1
-        try:
+        k = bound(name + "!q")
+        with _Depth():
             b = body(k)
-        finally:
-            ctx.quiet -= 1
         if b is True:
             return True
-        return SB(z3.ForAll([k.t], z3.Implies(z3.And(0 <= k.t, k.t < _term(n)), _term(b))))
+        return SB(_q([k.t], z3.Implies(z3.And(sym.tr(k), 0 <= k.t, k.t < _term(n)), _term(b)), _term(b)))
 
     def forall2(self, n, body):
         """forall a < b in [0, n): body(a, b)"""
         if isinstance(n, int) and n <= 6:
             return sand(*[body(i, j) for i in range(n) for j in range(i + 1, n)])
-        a, b = fresh("int", "a!q"), fresh("int", "b!q")
-        ctx = cur()
-        ctx.quiet += 1
-        try:
+        a, b = bound("a!q"), bound("b!q")
+        with _Depth():
             r = body(a, b)
-        finally:
-            ctx.quiet -= 1
-        return SB(z3.ForAll([a.t, b.t], z3.Implies(z3.And(0 <= a.t, a.t < b.t, b.t < _term(n)), _term(r))))
+        return SB(_q([a.t, b.t], z3.Implies(z3.And(sym.tr(a), sym.tr(b), 0 <= a.t, a.t < b.t,
+                                                       b.t < _term(n)), _term(r)), _term(r)))
+
+    def forall_adjacent(self, n, body):
+        """forall a, b = a+1 in [0, n): body(a, b) -- stated with two bound variables so that instantiation needs
+        both list reads L(a), L(b) to exist already (no matching loop through L(k-1))"""
+        if isinstance(n, int) and n <= 8:
+            return sand(*[body(i, i + 1) for i in range(n - 1)])
+        a, b = bound("a!adj"), bound("b!adj")
+        with _Depth():
+            r = body(a, b)
+        return SB(_q([a.t, b.t], z3.Implies(z3.And(sym.tr(a), sym.tr(b), 0 <= a.t, b.t == a.t + 1,
+                                                       b.t < _term(n)), _term(r)), _term(r)))
+
+    def forall_adjacent_between(self, n, lo, hi, body):
+        """forall a, b = a+1 in [0, n), forall j in [lo(a,b), hi(a,b)): body(a, b, j) -- one flat quantifier"""
+        a, b, j = bound("a!adjb"), bound("b!adjb"), bound("j!adjb")
+        with _Depth():
+            r = body(a, b, j)
+            lo_, hi_ = lo(a, b), hi(a, b)
+        return SB(z3.ForAll([a.t, b.t, j.t], z3.Implies(z3.And(sym.tr(a), sym.tr(b), sym.tr(j), 0 <= a.t,
+                                                                   b.t == a.t + 1, b.t < _term(n),
+                                                                   _term(lo_) <= j.t, j.t < _term(hi_)), _term(r)),
+                            patterns=[z3.MultiPattern(sym.tr(a), sym.tr(b), sym.tr(j))]))
 
     def exists(self, n, body, name="k"):
         if isinstance(n, int) and n <= 8:
             return sor(*[body(i) for i in range(n)])
-        k = fresh("int", name + "!e")
-        ctx = cur()
-        ctx.quiet += 1
-        try:
+        k = bound(name + "!e")
+        with _Depth():
             b = body(k)
-        finally:
-            ctx.quiet -= 1
-        return SB(z3.Exists([k.t], z3.And(0 <= k.t, k.t < _term(n), _term(b))))
+        f = sym.uf("tr", sym.I, sym.B)
+        pats = [f(k.t)]
+        auto = sym.auto_patterns(_term(b), [k.t]) if not isinstance(b, bool) else None
+        if auto:
+            pats += auto[:4]
+        body = z3.And(sym.tr(k), 0 <= k.t, k.t < _term(n), _term(b))
+        try:
+            return SB(z3.Exists([k.t], body, patterns=pats))
+        except z3.Z3Exception:
+            return SB(z3.Exists([k.t], body))
 
     def quiet(self):
         return _Quiet()
+
+    def forall_where(self, lo, hi, body, trigger=None, name="k"):
+        """forall k in [lo, hi): body(k); `trigger(k)` is used as instantiation pattern when it is an application
+        of an uninterpreted function"""
+        k = bound(name + "!w")
+        with _Depth():
+            b = body(k)
+            trig = trigger(k) if trigger is not None else None
+        if b is True:
+            return True
+        f = z3.Implies(z3.And(sym.tr(k), _term(lo) <= k.t, k.t < _term(hi)), _term(b))
+        pats = [sym.tr(k)]
+        if trig is not None and isinstance(trig, sym.S):
+            t = trig.t
+            if z3.is_app(t) and t.decl().kind() == z3.Z3_OP_UNINTERPRETED and t.num_args() > 0:
+                pats.append(t)
+        try:
+            return SB(z3.ForAll([k.t], f, patterns=pats))
+        except z3.Z3Exception:
+            return SB(z3.ForAll([k.t], f, patterns=[sym.tr(k)]))
+
+
+def _q(vars_, formula, body):
+    """quantifier with two alternative instantiation patterns: the trigger predicates tr(v) of all bound variables,
+    and the array/list reads of the body that take the bound variables directly"""
+    f = sym.uf("tr", sym.I, sym.B)
+    trp = [f(v) for v in vars_]
+    pats = [z3.MultiPattern(*trp) if len(trp) > 1 else trp[0]]
+    auto = sym.auto_patterns(body, vars_)
+    if auto:
+        for p in auto[:4]:
+            pats.append(p)
+    try:
+        return z3.ForAll(vars_, formula, patterns=pats)
+    except z3.Z3Exception:
+        return z3.ForAll(vars_, formula, patterns=pats[:1])
 
 
 class _Quiet:
@@ -157,6 +232,12 @@ class FnContract:
     def cases(self):
         """finite enumeration of configurations (each a dict merged into args)"""
         return [{}]
+
+
+def defined_by(fn):
+    """loop-carried variable whose value the invariant defines from the other variables: fn(c, old, ns)"""
+    fn.needs_ns = True
+    return fn
 
 
 def register(cls):
@@ -233,6 +314,14 @@ class CC:
     @staticmethod
     def exists(n, body, name="k"):
         return any(bool(body(k)) for k in range(int(n)))
+
+    @staticmethod
+    def forall_adjacent(n, body):
+        return all(bool(body(k, k + 1)) for k in range(int(n) - 1))
+
+    @staticmethod
+    def forall_where(lo, hi, body, trigger=None, name="k"):
+        return all(bool(body(k)) for k in range(int(lo), int(hi)))
 
     def assume(self, cond):
         pass
